@@ -237,6 +237,34 @@ def check_located(res, aname, N, bl, strand, scale=False):
                 res.deviation("__getitem__", c, t.alphabet.name, aname, sig="slice-alphabet")
             slices[(a, b)] = t
             res.state(("piece", aname, lib.loc_blocks(loc), lib.loc_strand(loc)))
+    # slices with a step: the piece spells every step-th base and its recorded location lists exactly those bases; a
+    # negative step (reversed, uncomplemented text) has no location that could describe it - refused, or no location kept
+    for a in list(pts) + [None]:
+        for b in list(pts) + [None]:
+            for step in (2, 3, -1, -2):
+                key = slice(a, b, step)
+                o = lib.outcome(lambda: s[key])
+                res.trans()
+                c = dict(op="slice-step", a=a, b=b, step=step, **case)
+                exp_t = text[key]
+                res.note("slice", "step" if step > 0 else "negative-step")
+                if o[0] != "ok":
+                    if step > 0 and exp_t:
+                        res.deviation("__getitem__", c, o[1], exp_t, sig="slice-step-raises")
+                    elif not lib.is_documented_exc(o[2]) or isinstance(o[2], TypeError):
+                        res.deviation("__getitem__", c, o[1], "piece or documented refusal", sig="slice-step-internal")
+                    continue
+                t = o[1]
+                loc = t.location_on_parent
+                if str(t) != exp_t:
+                    res.deviation("__getitem__", c, str(t), exp_t, sig="slice-step-text")
+                elif loc is None:
+                    if step > 0:
+                        res.deviation("__getitem__", c, None, Pm[key], sig="slice-step-location-lost")
+                elif exp_t and (consistent(t, G) is not True or M.P(lib.loc_blocks(loc), lib.loc_strand(loc)) != Pm[key]):
+                    res.deviation("__getitem__", c, [str(t), lib.canon_loc(loc)], [exp_t, Pm[key]], sig="slice-step-inconsistent")
+                elif not exp_t and len(loc) != 0:
+                    res.deviation("__getitem__", c, [str(t), lib.canon_loc(loc)], ["", []], sig="slice-step-inconsistent")
     # integer index and open-ended spellings
     for i in range(0, ln):
         o = lib.outcome(lambda: s[i])
